@@ -36,6 +36,15 @@ theorem string_literal_opaque_partial (a body b st : List Char) (i : Nat) (hs : 
         (body.map (fun c => V.ok c ('"' :: st)) ++ V.ok '"' st :: view (Py.go b 0 st 0 0)) :=
   string_literal_opaque a body b st i hs hend hst hq hn hnt
 
+/-- **Blanks at the edges of a piece of text never matter**: `StripSpaces`, which `Strip` applies to every part
+that `Split` produces (so: around every separator), returns the same text for every padding with white space
+on either side, and is idempotent. -/
+theorem blanks_around_parts_irrelevant (l r s : List Char) (hl : ∀ c ∈ l, isSp c = true) (hr : ∀ c ∈ r, isSp c = true) :
+    stripSpaces (l ++ s ++ r) = stripSpaces s ∧ stripSpaces (stripSpaces s) = stripSpaces s :=
+  ⟨stripSpaces_pad l r s hl hr, stripSpaces_idem s⟩
+
+example : stripSpaces [' ', '\n', 'a', ' ', 'b', '\t', ' '] = ['a', ' ', 'b'] ∧ stripSpaces [' ', ' '] = [] := by decide
+
 /-- positions never influence the scan -/
 theorem positions_irrelevant (s : List Char) (i j : Nat) (st : List Char) (e k : Nat) :
     view (Py.go s i st e k) = view (Py.go s j st e k) :=
